@@ -24,13 +24,18 @@ type Rec struct {
 }
 
 // Digest is the canonical rendering of the observable fields of a record / delivered message
-// (key, value, headers, millisecond timestamp): crc32 of a length-prefixed serialisation. Null and empty
-// byte strings are identified (the library returns nil for both).
+// (key, value, headers, millisecond timestamp): crc32 of a length-prefixed serialisation. A null byte string
+// (nil) has the length prefix 0xffffffff: null and empty are different things in a Kafka log (a null value is a
+// tombstone).
 func Digest(key, value []byte, headers []kafka.Header, tsMs int64) uint32 {
 	var b bytes.Buffer
 	w := func(p []byte) {
 		var l [4]byte
-		binary.BigEndian.PutUint32(l[:], uint32(len(p)))
+		if p == nil {
+			binary.BigEndian.PutUint32(l[:], 0xffffffff)
+		} else {
+			binary.BigEndian.PutUint32(l[:], uint32(len(p)))
+		}
 		b.Write(l[:])
 		b.Write(p)
 	}
@@ -63,6 +68,23 @@ type Item struct {
 	Base   int64 // v2: base offset; v0/v1 wrapper: absolute offset of the first inner message (relative offsets count from it)
 	Last   int64 // v2: last offset of the batch (base+lastOffsetDelta), may exceed the last retained record
 	Recs   []Rec // retained records (v2: any subset of [Base,Last]; plain v0/v1: exactly one; wrapper: >= 1)
+	// LogAppendTs != 0: the topic uses message.timestamp.type=LogAppendTime.  The broker has set the timestamp-type bit
+	// (attributes bit 3) and the batch's maxTimestamp (v2) / the wrapper's timestamp (v1) to the append time; the
+	// records' own timestamp fields are still the producer's.  The timestamp of every record of the batch IS the
+	// append time (Kafka protocol guide, record batch / message set: timestampType).
+	LogAppendTs int64
+	// Control: a control batch (attributes bit 5, written by the transaction coordinator: one record, the commit / abort
+	// marker).  It occupies Base..Last of the log but holds nothing for the application: no consumer is ever handed a
+	// control record.  In the layout text it is an empty batch.
+	Control bool
+}
+
+// stored is the record as the log defines it: under LogAppendTime its timestamp is the batch's append time.
+func (it Item) stored(r Rec) Rec {
+	if it.LogAppendTs != 0 {
+		r.TsMs = it.LogAppendTs
+	}
+	return r
 }
 
 func putVarint(b *bytes.Buffer, v int64) {
@@ -150,8 +172,16 @@ func encodeV2(it Item) (out []byte, plen int, sizes []int) {
 	if it.Codec != 0 {
 		pl = compressBytes(it.Codec, pl)
 	}
+	attrs := int16(it.Codec)
+	if it.Control {
+		attrs |= 0x30 // transactional + control
+	}
+	if it.LogAppendTs != 0 {
+		attrs |= 0x08
+		maxTs = it.LogAppendTs
+	}
 	var crcPart bytes.Buffer
-	be16(&crcPart, int16(it.Codec)) // attributes
+	be16(&crcPart, attrs) // attributes
 	be32(&crcPart, int32(it.Last-it.Base))
 	be64(&crcPart, firstTs)
 	be64(&crcPart, maxTs)
@@ -207,9 +237,12 @@ func (it Item) Encode() ([]byte, string) {
 	switch {
 	case it.Format == 2:
 		out, plen, sizes := encodeV2(it)
+		if it.Control {
+			return out, fmt.Sprintf("b:%d:%d:0:0:-", it.Base, it.Last)
+		}
 		var rs []string
 		for i, r := range it.Recs {
-			rs = append(rs, fmt.Sprintf("%d~%d~%d", r.Offset-it.Base, r.Digest(2), sizes[i]))
+			rs = append(rs, fmt.Sprintf("%d~%d~%d", r.Offset-it.Base, it.stored(r).Digest(2), sizes[i]))
 		}
 		s := "-"
 		if len(rs) > 0 {
@@ -229,10 +262,15 @@ func (it Item) Encode() ([]byte, string) {
 				field = r.Offset - it.Base // v1: relative inner offsets (holes keep the original numbering)
 			}
 			inner.Write(encodeMsg(it.Format, field, 0, r.TsMs, r.Key, r.Value))
-			rs = append(rs, fmt.Sprintf("%d~%d", field, r.Digest(it.Format)))
+			rs = append(rs, fmt.Sprintf("%d~%d", field, it.stored(r).Digest(it.Format)))
 		}
 		last := it.Recs[len(it.Recs)-1]
-		out := encodeMsg(it.Format, last.Offset, int8(it.Codec), last.TsMs, nil, compressBytes(it.Codec, inner.Bytes()))
+		wattrs, wts := int8(it.Codec), last.TsMs
+		if it.LogAppendTs != 0 && it.Format == 1 {
+			wattrs |= 0x08
+			wts = it.LogAppendTs
+		}
+		out := encodeMsg(it.Format, last.Offset, wattrs, wts, nil, compressBytes(it.Codec, inner.Bytes()))
 		return out, fmt.Sprintf("w:%d:%d:%d:%d:%s", it.Format, last.Offset, it.Codec, len(out), strings.Join(rs, ","))
 	}
 }
